@@ -9,7 +9,8 @@ VERIF = os.path.dirname(os.path.dirname(os.path.abspath(__file__)))
 TECH = "contract-based deductive verification: VCs from the real AST (sidecar contracts), z3/cvc5"
 
 # property -> (level category, level text, note, technique, design section)
-ASSUME = ("Assumed (listed per run in evidence.coverage.trusted_base): contracts of numpy/scipy/matplotlib/pandas calls, "
+ASSUME = ("The check runs the contracts written for the property and every contract on a function of the property's anchor files (modular dependencies). "
+          "Assumed (listed per run in evidence.coverage.trusted_base): contracts of numpy/scipy/matplotlib/pandas calls, "
           "float arithmetic treated as real arithmetic (mode R), the symbolic interpreter's semantics of the modelled Python/NumPy subset, z3/cvc5 soundness. ")
 
 CHECKS = {
